@@ -43,6 +43,10 @@ VEC_WITH_CAPACITY = "alloc::vec::Vec::<T>::with_capacity"
 SPLIT_OFF = "alloc::vec::Vec::<T, A>::split_off"
 DRAIN = "alloc::vec::Vec::<T, A>::drain"
 BOX_VEC = "alloc::boxed::box_assume_init_into_vec_unsafe"
+ITER_CHAIN = "core::iter::traits::iterator::Iterator::chain"
+ITER_ONCE = "core::iter::sources::once::once"
+ITER_EMPTY = "core::iter::sources::empty::empty"
+OPTION = "core::option::Option"
 TRY_ARRAY = "<ciborium::value::Value as util::ValueTryAs>::try_as_array"
 TRY_ARRAY_CONVERT = "<ciborium::value::Value as util::ValueTryAs>::try_as_array_then_convert"
 TO_ARRAY = "util::to_cbor_array"
@@ -64,6 +68,8 @@ def _walk(s):
         yield from _walk(s[2])
     elif s[0] == "rev":
         yield from _walk(s[1])
+    elif s[0] == "opt":
+        yield from _walk(s[2])
     elif s[0] == "cat":
         for x in s[1]:
             yield from _walk(x)
@@ -113,6 +119,8 @@ def strip_seq(s):
         return ("map", strip_sites(s[1]), strip_seq(s[2]))
     if k == "rev":
         return ("rev", strip_seq(s[1]))
+    if k == "opt":
+        return ("opt", tuple((strip_sites(c[0]), c[1], c[2]) for c in s[1]), strip_seq(s[2]))
     if k == "cat":
         return ("cat", tuple(strip_seq(x) for x in s[1]))
     return s
@@ -132,6 +140,8 @@ def normalize(s):
             return inner
         if inner[0] == "cat":
             return normalize(("cat", tuple(("rev", x) for x in reversed(inner[1]))))
+        if inner[0] == "opt":
+            return ("opt", inner[1], normalize(("rev", inner[2])))
         return ("rev", inner)
     if k == "map":
         inner = normalize(s[2])
@@ -142,6 +152,13 @@ def normalize(s):
         if inner[0] == "lit":
             return ("lit", tuple(subst_hole(s[1], X, v) for v in inner[1]))
         return ("map", s[1], inner)
+    if k == "opt":
+        inner = normalize(s[2])
+        if inner[0] == "empty":
+            return inner
+        if not s[1]:
+            return inner
+        return ("opt", tuple(s[1]), inner)
     if k == "cat":
         parts = []
         for x in s[1]:
@@ -175,6 +192,8 @@ def show_seq(s):
         return "map(x -> %s, %s)" % (show(s[1])[:100], show_seq(s[2]))
     if k == "rev":
         return "rev(%s)" % show_seq(s[1])
+    if k == "opt":
+        return "(%s if %s)" % (show_seq(s[2]), " && ".join("%s %s %s" % (show(c[0])[:50], c[1], sorted(c[2]) if isinstance(c[2], (set, frozenset)) else c[2]) for c in s[1]))
     if k == "cat":
         return " ++ ".join(show_seq(x) for x in s[1])
     return "?(%s)" % (s[1],)
@@ -187,6 +206,7 @@ class Seq:
         self.pv = pv or Prov(fn)
         self._vl = vl
         self._loops = dict(fn.cfg.loops())
+        self.origins = {}     # literal element term -> (operand, (bb, idx)) it was read from (for rules that need its definitions)
 
     @property
     def vl(self):
@@ -215,10 +235,76 @@ class Seq:
             if f is None:
                 return unknown("mapper %s" % show(it[2][1])[:60])
             return ("map", strip_sites_f(f), self.of_iter(it[2][0], depth + 1, at))
+        if is_call(it, ITER_ONCE) and len(it[2]) == 1:
+            site = it[3] if len(it) > 3 else None
+            if site and site[0] == self.fn.key:
+                self.origins.setdefault(it[2][0], (self.fn.blocks[site[1]]["term"]["args"][0], (site[1], "term")))
+            return ("lit", (it[2][0],))
+        if is_call(it, ITER_EMPTY):
+            return ("empty",)
+        if is_call(it, ITER_CHAIN) and len(it[2]) == 2:
+            second = None
+            site = it[3] if len(it) > 3 else None
+            if site and site[0] == self.fn.key:
+                second = self._option_operand(self.fn.blocks[site[1]]["term"]["args"][1], site[1])
+            if second is None:
+                second = self.of_iter(it[2][1], depth + 1, at)
+            return ("cat", (self.of_iter(it[2][0], depth + 1, at), second))
         if is_call(it, DRAIN) or is_call(it, SPLIT_OFF):
             return self.of_value(it, depth + 1, at)
+        o = self._option_term(it)
+        if o is not None:
+            return o
         # an Option used as a 0/1-element iterator, a Vec value, ...
         return self.of_value(it, depth + 1, at)
+
+    # ---- an Option used as a 0/1-element collection ---------------------------------------------------------------
+    def _option_term(self, t):
+        """sequence of an Option-valued TERM (Some(x) -> [x], None -> [], combinators by cases), or None if t is not
+        visibly an Option"""
+        from . import combinators as cb
+        while t[0] in ("ref", "deref"):
+            t = t[1]
+        if t[0] == "aggr" and t[1] == OPTION:
+            return ("lit", (t[3][0][1],)) if t[2] == "Some" and t[3] else ("empty",)
+        if cb.is_combinator(t) and cb.RULES[t[1]][0] == OPTION or (is_call(t) and t[1] in (cb.RES + "ok",)):
+            cases = cb.reduce(self.prog, t)
+            if len(cases) == 1 and cases[0][1] == t:
+                return None
+            parts = []
+            for conds, v in cases:
+                k = cb._ctor(v)
+                if not k or k[0] != OPTION:
+                    return None
+                if k[1] == "Some":
+                    parts.append(("opt", tuple(conds), ("lit", (k[2],))))
+            return ("cat", tuple(parts)) if parts else ("empty",)
+        if t[0] == "phi" and all(isinstance(x, tuple) and x[0] == "aggr" and x[1] == OPTION for x in t[1]):
+            somes = [x for x in t[1] if x[2] == "Some"]
+            if len(somes) == 1:
+                # which path built the Some is not visible in a term: conditions unknown
+                return ("opt", ((somes[0], "some-arm", ()),), ("lit", (somes[0][3][0][1],)))
+        return None
+
+    def _option_operand(self, op, bb):
+        """like _option_term for an OPERAND of Option type: the definitions of the local, each with the decisions that
+        select it (relative to the operand's use)"""
+        if op["k"] not in ("copy", "move") or op["place"]["p"]:
+            return None
+        ty = self.fn.local_ty(op["place"]["l"])
+        if not ty.startswith(OPTION + "<"):
+            return None
+        from .codec import arms
+        base = conditions(self.fn, self.pv, bb)
+        parts = []
+        for term, dbb in arms(self.pv, op, bb, "term"):
+            extra = tuple(c for c in conditions(self.fn, self.pv, dbb) if c not in base
+                          and not (c[0][0] == "discr" and is_call(c[0][1], TRY_BRANCH)))
+            s = self._option_term(term)
+            if s is None:
+                return None
+            parts.append(("opt", extra, s))
+        return normalize(("cat", tuple(parts)))
 
     # ---- values ---------------------------------------------------------------------------------------------
     def of_value(self, t, depth=0, at=None):
@@ -396,6 +482,9 @@ class Seq:
                 while base[0] == "field":
                     base = base[1]
                 if base == ("deref", boxt) or base == boxt or (base[0] == "deref" and base[1] == boxt):
+                    st = self.fn.blocks[e["bb"]]["stmts"][e["idx"]]
+                    for x, o in zip(e["value"][1], st["rv"]["ops"]):
+                        self.origins.setdefault(x, (o, (e["bb"], e["idx"])))
                     return ("lit", tuple(e["value"][1]))
         return unknown("vec![..] literal not found")
 
@@ -408,23 +497,23 @@ class Seq:
             # (an insert into a set is a push for the purpose of "which elements, derived how"; order is the consumer's call)
             v = pv.operand_term(t["args"][1], e["bb"], "term")
             if not loops_e:
-                if strict and self._conditional(e["bb"], root_bb):
-                    return unknown("conditional push")
-                return ("cat", (cur, ("lit", (v,))))
+                extra = self._extra_conds(e["bb"], root_bb) if strict else ()
+                self.origins.setdefault(v, (t["args"][1], (e["bb"], "term")))
+                return ("cat", (cur, ("opt", extra, ("lit", (v,)))))
             if len(loops_e) > 1:
                 return unknown("push in a nested loop")
             return ("cat", (cur, self._loop_push(loops_e[0], e["bb"], v)))
         if name == EXTEND:
             if loops_e:
                 return unknown("extend in a loop")
-            if strict and self._conditional(e["bb"], root_bb):
-                return unknown("conditional extend")
+            extra = self._extra_conds(e["bb"], root_bb) if strict else ()
             src = pv.operand_term(t["args"][1], e["bb"], "term")
             if src[0] == "array":
-                return ("cat", (cur, ("lit", tuple(src[1]))))
-            if src[0] == "aggr" and src[1] == "core::option::Option":
-                return unknown("extend with an Option")
-            return ("cat", (cur, self.of_iter(src, 0, (e["bb"], "term"))))
+                return ("cat", (cur, ("opt", extra, ("lit", tuple(src[1])))))
+            o = self._option_operand(t["args"][1], e["bb"])
+            if o is None:
+                o = self.of_iter(src, 0, (e["bb"], "term"))
+            return ("cat", (cur, ("opt", extra, o)))
         if name == VL.VEC_REVERSE or name == "core::slice::<impl [T]>::reverse":
             if loops_e:
                 return unknown("reverse in a loop")
@@ -437,6 +526,12 @@ class Seq:
                 return _slice(cur, 0, a1[1])
             return unknown("split_off")
         return unknown("operation %s on the vector" % (name or "?").split("::")[-1])
+
+    def _extra_conds(self, bb, ref_bb):
+        """decisions taken between ref_bb and bb, `?` success edges excluded"""
+        base = conditions(self.fn, self.pv, ref_bb)
+        return tuple(c for c in conditions(self.fn, self.pv, bb) if c not in base
+                     and not (c[0][0] == "discr" and is_call(c[0][1], TRY_BRANCH)))
 
     def _conditional(self, bb, ref_bb, header=None):
         """does reaching bb from ref_bb depend on a decision other than a `?` succeeding (and, inside a loop, the
